@@ -3,6 +3,8 @@ import itertools
 import random
 import warnings
 
+import numpy as np
+
 ID = "C11"
 META = {
     "technique": "runtime monitoring: every return value of the public queue methods checked against a sorted-multiset reference model; bounded operation alphabet enumerated exhaustively, long random histories with JSON round trips",
@@ -28,7 +30,7 @@ ANCHORS = [
     "acnportal.acnsim.events.event_queue:EventQueue._from_dict",
     "acnportal.acnsim.events.event:Event.__lt__",
 ]
-REQUIRED = ["bulk_queues_over_1000_pending", "returned_lists_mutated_by_the_client", "exhaustive_sequences", "random_ops", "json_round_trips", "op:get_event", "op:get_current_events",
+REQUIRED = ["fractional_timestamps_of_mixed_float_types", "ctor_events_as:generator", "ctor_events_as:iter", "bulk_queues_over_1000_pending", "returned_lists_mutated_by_the_client", "exhaustive_sequences", "random_ops", "json_round_trips", "op:get_event", "op:get_current_events",
             "op:add_events_bulk", "op:constructor_events", "ties_seen", "sim_runs_monitored", "sim_json_round_trips",
             "bulk_queues", "bulk_all_due_retrievals", "custom_precedence_round_trips", "queue_monitor:get_current_events", "queue_monitor:add", "queue_monitor:get_last_timestamp", "suite:queue_monitor:get_event"]
 BUDGET_S = {"quick": 240, "thorough": 3000}
@@ -101,7 +103,10 @@ def rank_of(ev):
 
 
 def key_of(ev):
-    return (ev.timestamp, rank_of(ev), getattr(getattr(ev, "ev", None), "session_id", None))
+    ts = ev.timestamp
+    if isinstance(ts, (float, np.floating)):
+        ts = float(ts)  # exact; the model compares in double precision whatever float type the event carries
+    return (ts, rank_of(ev), getattr(getattr(ev, "ev", None), "session_id", None))
 
 
 class Model:
@@ -257,12 +262,33 @@ def _run_rand(case, obs):
     c = ctx()
     rng = random.Random(case["seed"])
     nts = rng.choice([3, 10, 40])
+    # timestamps: period indices (ints) or - every 8th case - fractional ones of one float type per queue (python float, numpy
+    # float16 / float32 / float64, values whose decimal expansion is not short); queries then fall a hair before / on / after pending timestamps
+    fl = case["seed"] % 8 == 0
+    if fl:
+        import numpy as _np
+        # one float type per queue (numpy compares a float32 with a python float in float32: mixing types inside one heap would
+        # make the order a property of numpy's promotion rules, not of the queue)
+        ftype = rng.choice([float, _np.float32, _np.float32, _np.float64, _np.float16])
+        grid = [ftype(rng.choice([0.3, 0.1, 1 / 3, 2.5, 7.25, 0.7]) * rng.randint(1, 9)) for _ in range(nts)]
+        obs.ev("fractional_timestamps_of_mixed_float_types")
+        obs.ev("fractional_timestamps:" + ftype.__name__)
+    else:
+        grid = list(range(nts))
+
+    def ts_():
+        return grid[rng.randrange(nts)]
+
     m = Model()
     hist = []
     init = []
     if rng.random() < 0.5:
-        init = [c.make(rng.choice("UPRE"), rng.randrange(nts), rng.randrange(12)) for _ in range(rng.randint(1, 8))]
-        q = c.EventQueue(init)
+        init = [c.make(rng.choice("UPRE"), ts_(), rng.randrange(12)) for _ in range(rng.randint(1, 8))]
+        # the constructor's events come as a list, a tuple, or a one-shot iterable (generator, map, iterator)
+        form = rng.choice(["list", "list", "tuple", "generator", "map", "iter"])
+        obs.ev("ctor_events_as:" + form)
+        q = c.EventQueue({"list": lambda: list(init), "tuple": lambda: tuple(init), "generator": lambda: (e_ for e_ in init),
+                          "map": lambda: map(lambda e_: e_, init), "iter": lambda: iter(init)}[form]())
         for e in init:
             m.add(e)
         obs.ev("op:constructor_events")
@@ -279,14 +305,14 @@ def _run_rand(case, obs):
                 ev = rng.choice(pool)  # the same event object again
                 obs.ev("duplicate_object_added")
             else:
-                ev = c.make(rng.choice("UPRE"), rng.randrange(nts), rng.randrange(12))
+                ev = c.make(rng.choice("UPRE"), ts_(), rng.randrange(12))
                 pool.append(ev)
             q.add_event(ev)
             m.add(ev)
             hist.append(["add"] + list(map(str, key_of(ev))))
         elif r < 0.5:
-            evs = [c.make(rng.choice("UPR"), rng.randrange(nts), rng.randrange(12)) for _ in range(rng.randint(0, 6))]
-            q.add_events(evs)
+            evs = [c.make(rng.choice("UPR"), ts_(), rng.randrange(12)) for _ in range(rng.randint(0, 6))]
+            q.add_events(evs if rng.random() < 0.6 else rng.choice([tuple(evs), (e_ for e_ in evs), iter(evs)]))
             for e in evs:
                 m.add(e)
             obs.ev("op:add_events_bulk")
@@ -298,7 +324,9 @@ def _run_rand(case, obs):
             if not do_get(q, m, obs, hist):
                 return
         elif r < 0.92:
-            t = rng.randrange(-1, nts + 1)
+            # (query times are numpy float64 scalars in this mode: comparing a float32 timestamp with a *python* float is done in
+            # float32 under numpy's promotion rules, in float64 after the timestamp has been through JSON - not the queue's doing)
+            t = rng.randrange(-1, nts + 1) if not fl else np.float64(float(ts_()) + rng.choice([-1e-9, 0.0, 1e-9, 0.5]))
             hist.append(["cur", t])
             if not do_cur(q, m, t, obs, hist):
                 return
